@@ -243,14 +243,20 @@ pub extern "C" fn shv_m_write(fd: c_int, _buf: *const c_void, len: usize) -> isi
 pub static mut RECV_BUDGET: usize = 0;
 #[no_mangle]
 pub extern "C" fn shv_m_recv(fd: c_int, _buf: *mut c_void, len: usize, flags: c_int) -> isize {
+    unsafe {
+        if RECV_BUDGET == 0 {
+            // nothing (more) buffered. Returned as the CONSTANT 0 so that the model checker sees a
+            // drain loop terminate without the solver (callers here only test `> 0`; a -1/EAGAIN
+            // answer is covered while the budget is positive).
+            ev(EV_RECV, fd as i64, len as i64, flags as i64, 0, 0);
+            ret(0);
+            return 0;
+        }
+        RECV_BUDGET -= 1;
+    }
     let r: isize = kani::any();
     kani::assume(r >= -1 && (r as i64) <= len as i64);
     unsafe {
-        if RECV_BUDGET == 0 {
-            kani::assume(r <= 0);
-        } else {
-            RECV_BUDGET -= 1;
-        }
         if r == -1 {
             ERRNO = kani::any();
             kani::assume(ERRNO > 0 && ERRNO < 134);
